@@ -397,3 +397,13 @@ Proof.
       intros z [<-|Hz]; [now left|right]. eapply IH; eauto.
     + intros H. injection H as _ _ <-. intros z [<-|[]]. now left.
 Qed.
+
+Lemma dels_filter_mp P (Q : bytes -> bool) a b0 : (forall k, P k = true -> Q (k_mp k) = false) ->
+  dels P a b0 -> filter Q (map k_mp a) = filter Q (map k_mp b0).
+Proof.
+  intros H. induction 1 as [|l1 k l2 tab' Hk _ IH]; [reflexivity|].
+  rewrite <- IH, !map_app, !filter_app. cbn [map filter]. now rewrite (H k Hk).
+Qed.
+
+Lemma ku_seq_replay_eq ks ts ok ks' iss : ku_seq ks ts = (ok, ks', iss) -> ku_replay ks iss = ks'.
+Proof. intros H. pose proof (ku_seq_replay ks ts) as R. now rewrite H in R. Qed.
